@@ -45,6 +45,10 @@ R["C11"] = ("cases: DIMACS file (n <= 8, integer weights <= 400; 40% with 1-2 in
             "distinct = (file hash, argv, P, schedule fingerprint); non-trivial = rejected input with P >= 2, or valid input with a cycle")
 R["C20"] += "; demo part: mcb-dimacs / approx-mcb-dimacs with --cores n in {1,2,3,4,7} and parallel algorithm, non-trivial when -v is absent"
 
+R["C07"] = ("not a workload of its own: every engine re-runs the workload mix of its properties (seq: C01 C02 C05 C06 C09 C15; comp: C10 C12 C13 C14 C16 C17 C18; tbb: C03 C09 C20; "
+            "mpi: C04 C08; the four demos: C11) with ASan + UBSan (no recovery) and an LSan leak check after every run; tbb and mpi additionally under TSan; thorough adds a valgrind pass over "
+            "the plain build. Violations: any sanitizer / valgrind report, any worker death, and the arena's stale-descriptor oracle. distinct = per-engine case key; non-trivial as defined by the source property")
+
 def run(prop, tier, seed):
     if prop not in vlib.STAGES:
         print("HARNESS-ERROR: no check registered for " + prop)
